@@ -51,7 +51,45 @@ func (e *Exec) floatTerm(x Float) *Term {
 		}
 		return t
 	}
-	return &Term{Name: fpLit(x.C), Sort: Sort{K: SFP, W: 64}}
+	return &Term{Name: fpLit(x.C), Sort: Sort{K: SFP, W: 64}, RLo: x.C, RHi: x.C, RBnd: !math.IsNaN(x.C) && !math.IsInf(x.C, 0)}
+}
+
+// fpBounds propagates sound real bounds through an IEEE operation (used for narrowing in BV mode).
+func fpBounds(op token.Token, tx, ty *Term) (float64, float64, bool) {
+	if !tx.RBnd || !ty.RBnd {
+		return 0, 0, false
+	}
+	var c []float64
+	switch op {
+	case token.ADD:
+		c = []float64{tx.RLo + ty.RLo, tx.RHi + ty.RHi}
+	case token.SUB:
+		c = []float64{tx.RLo - ty.RHi, tx.RHi - ty.RLo}
+	case token.MUL:
+		c = []float64{tx.RLo * ty.RLo, tx.RLo * ty.RHi, tx.RHi * ty.RLo, tx.RHi * ty.RHi}
+	case token.QUO:
+		if ty.RLo > 0 || ty.RHi < 0 {
+			c = []float64{tx.RLo / ty.RLo, tx.RLo / ty.RHi, tx.RHi / ty.RLo, tx.RHi / ty.RHi}
+		}
+	}
+	if c == nil {
+		return 0, 0, false
+	}
+	lo, hi := c[0], c[0]
+	for _, v := range c {
+		lo, hi = math.Min(lo, v), math.Max(hi, v)
+	}
+	if math.IsNaN(lo) || math.IsInf(lo, 0) || math.IsNaN(hi) || math.IsInf(hi, 0) {
+		return 0, 0, false
+	}
+	lo2, hi2 := lo-math.Abs(lo)*1e-15-1e-300, hi+math.Abs(hi)*1e-15+1e-300
+	if lo >= 0 && lo2 < 0 { // a non-negative exact result never rounds below zero
+		lo2 = 0
+	}
+	if hi <= 0 && hi2 > 0 {
+		hi2 = 0
+	}
+	return lo2, hi2, true
 }
 
 // round introduces a fresh real y standing for the float64 nearest to the exact real v
@@ -135,7 +173,14 @@ func (e *Exec) intToFloat(x Int, t types.Type) Value {
 	if x.Sg {
 		op = "to_fp"
 	}
-	return Float{W: 64, S: e.def(Sort{K: SFP, W: 64}, fmt.Sprintf("((_ %s 11 53) RNE %s)", op, x.S.Name))}
+	ft := e.def(Sort{K: SFP, W: 64}, fmt.Sprintf("((_ %s 11 53) RNE %s)", op, x.S.Name))
+	if lo, hi, ok := e.ival(x); ok {
+		ft.RLo, ft.RHi, ft.RBnd = float64(lo)*(1-1e-15)-1, float64(hi)*(1+1e-15)+1, true
+		if lo > -two53 && hi < two53 {
+			ft.RLo, ft.RHi = float64(lo), float64(hi)
+		}
+	}
+	return Float{W: 64, S: ft}
 }
 
 func (e *Exec) floatToInt(x Float, w uint8, sg bool) Value {
@@ -165,6 +210,12 @@ func (e *Exec) floatToInt(x Float, w uint8, sg bool) Value {
 		op = "fp.to_sbv"
 	}
 	t := e.def(Sort{K: SBV, W: int(w)}, fmt.Sprintf("((_ %s %d) RTZ %s)", op, w, x.S.Name))
+	if x.S.RBnd && math.Abs(x.S.RLo) < 1e18 && math.Abs(x.S.RHi) < 1e18 {
+		lo, hi := int64(math.Trunc(x.S.RLo)), int64(math.Trunc(x.S.RHi))
+		if inRange(lo, hi, w, sg) {
+			return e.mkSym(t, w, sg, lo, hi, true)
+		}
+	}
 	return e.mkSym(t, w, sg, 0, 0, false)
 }
 
@@ -314,7 +365,9 @@ func (e *Exec) floatBin(op token.Token, x, y Float) Value {
 	default:
 		panic(unsupported("float op " + op.String()))
 	}
-	return Float{W: 64, S: e.def(Sort{K: SFP, W: 64}, "("+sop+" RNE "+tx.Name+" "+ty.Name+")")}
+	rt := e.def(Sort{K: SFP, W: 64}, "("+sop+" RNE "+tx.Name+" "+ty.Name+")")
+	rt.RLo, rt.RHi, rt.RBnd = fpBounds(op, tx, ty)
+	return Float{W: 64, S: rt}
 }
 
 func (e *Exec) floatCmp(op token.Token, x, y Float) Bool {
@@ -390,7 +443,12 @@ func (e *Exec) floatFloor(x Float) Float {
 		}
 		return Float{W: 64, S: t}
 	}
-	return Float{W: 64, S: e.def(Sort{K: SFP, W: 64}, "(fp.roundToIntegral RTN "+x.S.Name+")")}
+	rt := e.def(Sort{K: SFP, W: 64}, "(fp.roundToIntegral RTN "+x.S.Name+")")
+	rt.Int = true
+	if x.S.RBnd {
+		rt.RLo, rt.RHi, rt.RBnd = math.Floor(x.S.RLo), math.Floor(x.S.RHi), true
+	}
+	return Float{W: 64, S: rt}
 }
 
 // ---------- misc native helpers ----------
